@@ -98,7 +98,7 @@ class World:
         return evs
 
 
-def observe(world, sid, run, expected, unavailable=()):
+def observe(world, sid, run, expected, unavailable=(), damaged=()):
     """Open / Resolve / DumpDiff / Check events from a dump run"""
     evs = []
     d = next((e for e in run["events"] if e["ev"] == "Dump"), None)
@@ -120,17 +120,18 @@ def observe(world, sid, run, expected, unavailable=()):
             r["locOk"] = (pk.get("location") == world.locs.get(idn, ""))
         evs.append(r)
     exp = json.loads(json.dumps(expected))
+    skip = set(unavailable) | set(damaged)
     for pk in exp["contents"]:
-        if pack_ids.get(pk["pack"]) in unavailable:
+        if pack_ids.get(pk["pack"]) in skip:
             pk.clear()
     exp["contents"] = [pk for pk in exp["contents"] if pk]
-    got = dict(dump, contents=[pk for pk in dump["contents"] if pack_ids.get(pk["pack"]) not in unavailable])
+    got = dict(dump, contents=[pk for pk in dump["contents"] if pack_ids.get(pk["pack"]) not in skip])
     df = L.diff(exp, got)
     df = [x for x in df if x[0] != "check"]
     evs.append({"ev": "DumpDiff", "scn": sid, "n": len(df), "first": [list(map(str, x)) for x in df[:3]]})
     chk = dump["check"]
     evs.append({"ev": "Check", "scn": sid, "res": "true" if chk is True else ("false" if chk is False else "err"),
-                "err": "" if isinstance(chk, bool) else json.dumps(chk)[:120]})
+                "err": "" if isinstance(chk, bool) else json.dumps(chk)[:120], "damaged": bool(damaged)})
     return evs, dump
 
 
@@ -165,7 +166,7 @@ class Runner:
             return None
         return w
 
-    def config(self, world, entry_file, desc, unavailable=(), prefix_files=()):
+    def config(self, world, entry_file, desc, unavailable=(), prefix_files=(), damaged=()):
         """dump the container at entry_file; record config + observations"""
         self.k += 1
         sid = "k%d" % self.k
@@ -173,7 +174,7 @@ class Runner:
         evs = world.snapshot(sid, entry_file, world.scn["concat"], prefix_files)
         req = L.dump_request(world.scn, os.path.join(world.dir, entry_file), did=sid)
         run = self.harness([req], "dump")[sid]
-        obs, dump = observe(world, sid, run, L.expected_dump(world.scn), unavailable)
+        obs, dump = observe(world, sid, run, L.expected_dump(world.scn), unavailable, damaged)
         self.events += evs + obs
         self.n += 1
         if len(self.rep.cov["samples"]) < 3:
@@ -310,6 +311,25 @@ def run_c11(prop, tier):
                     elif what == "other":
                         shutil.copy(os.path.join(wo.dir, ofiles[sym]), p)
                 R.config(w, w.entry, {"mode": mode, "op": "faults", "files": dict(zip(syms, ch))}, unavailable=unavailable)
+                # the check covers the packs that are present: alter one byte inside the checked range of a kept pack
+                kept = [sym for sym, what in zip(syms, ch) if what == "keep"]
+                if kept and unavailable:
+                    for sym in kept:
+                        p = os.path.join(w.dir, cfiles[sym])
+                        data = bytearray(open(p, "rb").read())
+                        dec = jbkdec.decode_file(p, data=bytes(data), check_hash=False)
+                        cp = next(pk for pk in jbkdec.all_packs(dec) if pk["kind"] == "c")
+                        blk = next((b for b in cp["blocks"] if b["kind"] == "ClusterData" and b["size"] > 0), None)
+                        if blk is None:
+                            continue
+                        pos = blk["begin"] + rng.randrange(0, blk["size"])     # content bytes: hashed, the pack still opens
+                        orig = bytes(data)
+                        data[pos] ^= 0x40
+                        open(p, "wb").write(data)
+                        ident = "c1" if sym == "content" else sym[2:]
+                        R.config(w, w.entry, {"mode": mode, "op": "faults+damage", "files": dict(zip(syms, ch)), "damaged": sym},
+                                 unavailable=unavailable, damaged={ident})
+                        open(p, "wb").write(orig)
                 for p, sv in saved.items():
                     if os.path.isdir(p):
                         shutil.rmtree(p)
@@ -374,7 +394,10 @@ def run_c12(prop, tier):
 def set_location_step(R, rep, w, entry, vname, mode, target, loc, rng):
     R.k += 1
     sid = "k%d" % R.k
-    desc = {"mode": mode, "variant": vname, "target": target, "loc_len": len(loc.encode()), "loc": loc[:20]}
+    hist = getattr(w, "history", [])
+    w.history = hist
+    desc = {"mode": mode, "variant": vname, "target": target, "loc_len": len(loc.encode()), "loc": loc[:20], "history": list(hist)}
+    hist.append([target, loc[:8], len(loc.encode())])
     R.cfgs[sid] = desc
     path = os.path.join(w.dir, entry)
     before = open(path, "rb").read()
@@ -437,9 +460,14 @@ def set_location_step(R, rep, w, entry, vname, mode, target, loc, rng):
     if known and te["res"] == "ok" and ev["manifestOpens"]:
         old = next((pi["location"] for pi in man0["packInfos"] if pi["uuid"] == uuid), "")
         moved = False
-        if old and loc and old != loc and os.path.isfile(os.path.join(w.dir, old)) and "/" not in loc and not os.path.exists(os.path.join(w.dir, loc)):
+        holds = False
+        if old and os.path.isfile(os.path.join(w.dir, old)):
+            dold = jbkdec.decode_file(os.path.join(w.dir, old), check_hash=False)
+            holds = any(pk["uuid"] == uuid for pk in jbkdec.all_packs(dold))
+        # the pack's own file follows its new location (never a file that merely sits at the old location string)
+        if holds and loc and old != loc and "/" not in loc and not os.path.exists(os.path.join(w.dir, loc)):
             shutil.move(os.path.join(w.dir, old), os.path.join(w.dir, loc))
-            w.names[loc] = w.names.get(old, "moved")
+            w.names[loc] = w.names.pop(old, "moved")
             moved = True
         in_entry = target in [i for e_ in w.snapshot(sid, entry, mode) if e_["ev"] == "Fs" and e_["path"] == w.names.get(entry) for i in e_["packs"]]
         if in_entry or moved or (old == loc) or (old and not loc and False):
